@@ -12,8 +12,8 @@ EXPLANATION = ('llsym with ipdom state merging executes the real mj_stateSize / 
                'contents, and concrete small array sizes. Obligations: size = sum of the documented element sizes (table re-extracted from the mjtState comments); '
                'get writes exactly the selected elements in bit order and nothing past them; set/copy write exactly the selected arrays and leave every other cell of '
                'mjData untouched; extract(get(d,s),s,s2) = get(d,s2); invalid signatures raise an error; every access in bounds.')
-BOUNDS = {'quick': {'sizes': 'profiles A (all element counts 1), B (mixed 0/1/2)', 'signature': 'any 32-bit int'}, 'thorough': {'sizes': 'profiles A, B, C (2,1,2,...), D (zeros except qpos/qvel)'}}
-OUTSIDE = 'mj_extractState on the profile with all 14 elements non-empty (does not finish: 900 s budget), covered on profiles B/C/D; mj_resetData equals a fresh mj_makeData (whole-struct initialisation); keyframe functions; array sizes above 2.'
+BOUNDS = {'quick': {'sizes': 'profiles A (all element counts 1), B (mixed 0/1/2)', 'signature': 'any 32-bit int'}, 'thorough': {'sizes': 'profiles A, B, C (2,1,2,...), D (zeros except qpos/qvel)'}, 'keyframes': 'nkey 1..3 with distinct nq/nv/na/nmocap/nu, keyframe index any 32-bit int'}
+OUTSIDE = 'mj_extractState on the profile with all 14 elements non-empty (does not finish: 900 s budget), covered on profiles B/C/D; mj_resetData equals a fresh mj_makeData (whole-struct initialisation: _resetData is stubbed and logged in the keyframe units); array sizes above 3.'
 ASSUMPTIONS = ['array contents are reals (copies only; NaN payload bits are not distinguished - mju_copy is memcpy)', 'eq_active bytes hold 0 or 1', 'mju_message(ERROR) does not return']
 BUDGET = {'quick': 900, 'thorough': 3000}
 _c = {}
@@ -55,7 +55,7 @@ def K():
     return _c['k']
 
 
-def prepare(tier): mod(); so(); lay(); K()
+def prepare(tier): mod(); so(); lay(); K(); mod_io(); so_io()
 
 
 def I(v): return z3.BitVecVal(v, 32)
@@ -278,11 +278,99 @@ def unit_extract(tier, prof):
     return ck
 
 
+def mod_io():
+    if 'mio' not in _c: _c['mio'] = ir.load(['src/engine/engine_io.c', 'src/engine/engine_util_blas.c'])
+    return _c['mio']
+
+
+def so_io():
+    if 'soio' not in _c:
+        _c['soio'] = build.native_lib(['src/engine/engine_io.c'], ['src/engine/engine_util_blas.c', 'src/engine/engine_util_errmem.c'], name='io_key',
+                                      extra_c='void vfstub__resetData(const void* m, void* d, unsigned char v) { vf_log_call("_resetData"); }\n', redirect=['_resetData'])
+    return _c['soio']
+
+
+KEYF = [('key_qpos', 'qpos', 'nq', 1), ('key_qvel', 'qvel', 'nv', 1), ('key_act', 'act', 'na', 1), ('key_mpos', 'mocap_pos', 'nmocap', 3), ('key_mquat', 'mocap_quat', 'nmocap', 4), ('key_ctrl', 'ctrl', 'nu', 1)]
+
+
+def unit_keyframe(tier, which, sizes):
+    """mj_setKeyframe / mj_resetDataKeyframe with the keyframe index a free 32-bit variable: slot k of every key_* array <-> the data fields, other slots untouched, out-of-range index rejected"""
+    tag = '_'.join('%s%d' % (k, v) for k, v in sorted(sizes.items()))
+    ck = Checker('keyframe_%s_%s' % (which, tag), tier, timeout_s=120, semantics='real')
+    L = lay(); w = W.World('real'); nkey = sizes['nkey']
+    M = W.SB(w, L, 'mjModel_', 'm'); D = W.SB(w, L, 'mjData_', 'd')
+    for f, v in sizes.items(): M.set(f, v)
+    kt_o, kt = M.arr('key_time', 'f64', nkey, name='key_time')
+    K = {}; Dv = {}
+    for kf, df, cnt, mul in KEYF:
+        n = sizes[cnt] * mul
+        K[kf] = M.arr(kf, 'f64', n * nkey, name=kf); Dv[df] = D.arr(df, 'f64', n, name='d_' + df)
+    t0 = D.sym('time', 'd_time')
+    key = z3.BitVec('key', 32); w.syms.append(('key', 'i32', key))
+    valid = z3.And(key >= 0, key < nkey)
+    dec = lambda mdl: {'key': W.evalnum(mdl, key) if W.evalnum(mdl, key) < (1 << 31) else W.evalnum(mdl, key) - (1 << 32), 'sizes': sizes}
+    if which == 'set':
+        ex = llsym.Exec(mod(), fpmode='real', loop_bound=8)
+        st = w.to_state(ex)
+        res = ex.run('@mj_setKeyframe', [w.P(M.o), w.P(D.o), key], st)
+        args = [('ptr', (M.o, 0)), ('ptr', (D.o, 0)), ('i32', key)]; fn = 'mj_setKeyframe'; lib = so
+    else:
+        reset_log = []
+        def reset_stub(ex_, st_, a_, i_): st_.log.append(('_resetData',)); return None
+        ex = llsym.Exec(mod_io(), fpmode='real', loop_bound=8, stubs={'_resetData': reset_stub})
+        st = w.to_state(ex)
+        res = ex.run('@mj_resetDataKeyframe', [w.P(M.o), w.P(D.o), key], st)
+        args = [('ptr', (M.o, 0)), ('ptr', (D.o, 0)), ('i32', key)]; fn = 'mj_resetDataKeyframe'; lib = so_io
+    ck.note_results(ex, res)
+    for r in res:
+        if r.kind == 'error':
+            ck.prove('%s: error only for an index outside [0, nkey)' % fn, r.state.pc, z3.Not(valid) if which == 'set' else z3.BoolVal(False), site='%s:error' % fn, decode=dec, replay=W.make_replay(lib(), fn, w, args, expect='error')); continue
+        if r.kind != 'return': continue
+        pc = r.state.pc
+        ld = lambda o, i: ex.load(r.state, w.P(o, 8 * i), FpT('double'))
+        outs = []; claims = []
+        if which == 'set':
+            ck.prove('mj_setKeyframe returns only for a valid index', pc, valid, site='mj_setKeyframe:valid', decode=dec)
+            for k in range(nkey):
+                hit = key == k
+                claims.append(ld(kt_o, k) == z3.If(hit, t0, kt[k])); outs.append(('key_time%d' % k, kt_o, 8 * k, 'f64', ld(kt_o, k)))
+                for kf, df, cnt, mul in KEYF:
+                    n = sizes[cnt] * mul; ko, kv = K[kf]; do_, dv = Dv[df]
+                    for j in range(n):
+                        cur = ld(ko, k * n + j); claims.append(cur == z3.If(hit, dv[j], kv[k * n + j])); outs.append(('%s_%d_%d' % (kf, k, j), ko, 8 * (k * n + j), 'f64', cur))
+            for df, (do_, dv) in Dv.items():
+                claims += [ld(do_, j) == dv[j] for j in range(len(dv))]
+            what = 'slot k of key_time/qpos/qvel/act/mpos/mquat/ctrl holds the state of d, every other slot and d itself are untouched'
+        else:
+            claims.append(z3.BoolVal(('_resetData',) in r.state.log))
+            tnew = D.load(ex, r.state, 'time'); outs.append(D.out(ex, r.state, 'time'))
+            want_t = t0
+            for k in range(nkey): want_t = z3.If(key == k, kt[k], want_t)
+            claims.append(tnew == want_t)
+            for kf, df, cnt, mul in KEYF:
+                n = sizes[cnt] * mul; ko, kv = K[kf]; do_, dv = Dv[df]
+                for j in range(n):
+                    want = dv[j]
+                    for k in range(nkey): want = z3.If(key == k, kv[k * n + j], want)
+                    cur = ld(do_, j); claims.append(cur == want); outs.append(('%s_%d' % (df, j), do_, 8 * j, 'f64', cur))
+                claims += [ld(ko, i) == kv[i] for i in range(len(kv))]
+            what = 'after the reset, time/qpos/qvel/act/mocap_pos/mocap_quat/ctrl hold slot k of the key arrays for a valid index (only the reset otherwise); the model is untouched'
+        rp = W.make_replay(lib(), fn, w, args, outputs=outs, semantics='real')
+        ck.prove('%s: %s' % (fn, what), pc, z3.And(*claims), site='%s:content' % fn, decode=dec, replay=rp)
+    ck.reach('valid index', [valid]); ck.reach('invalid index', [z3.Not(valid)])
+    ck.memory_obligations(res, decode=dec)
+    return ck
+
+
 def units(tier):
     u = []
     for prof in (['A', 'B'] if tier == 'quick' else ['A', 'B', 'C', 'D']):
         for fn in ('size', 'get', 'set', 'copy'):
             u.append(('%s_%s' % (fn, prof), 'unit_' + fn, {'prof': prof}))
+    for sz in ([dict(nkey=2, nq=2, nv=1, na=1, nmocap=1, nu=2), dict(nkey=3, nq=1, nv=2, na=0, nmocap=2, nu=1)] if tier == 'quick' else
+               [dict(nkey=2, nq=2, nv=1, na=1, nmocap=1, nu=2), dict(nkey=3, nq=1, nv=2, na=0, nmocap=2, nu=1), dict(nkey=3, nq=3, nv=2, na=2, nmocap=1, nu=3), dict(nkey=1, nq=1, nv=1, na=1, nmocap=0, nu=0)]):
+        for which in ('set', 'reset'):
+            u.append(('keyframe_%s_%s' % (which, '_'.join('%s%d' % kv for kv in sorted(sz.items()))), 'unit_keyframe', {'which': which, 'sizes': sz}))
     # extract has two symbolic signatures; the all-elements profile A does not finish in the budget and is outside the claim
     for prof in (['B', 'D'] if tier == 'quick' else ['B', 'C', 'D']):
         u.append(('extract_%s' % prof, 'unit_extract', {'prof': prof}))
